@@ -2,15 +2,18 @@
 from the LIVE module and writes lean/BqVerif/Generated/InstOrder.lean:
 
   * the classes in order, with `get_method_name()`,
-  * the shape of each class's `is_capable` body, recognised from its AST:
-        all(not isinstance(g, VariableUnitaryGate) for g in circuit.gate_set)
+  * which predicate each class's `is_capable` is, classified by its behaviour
+    on eight probe circuits (gate sets over {VariableUnitaryGate, CNOT, RX}):
+        false exactly when a VariableUnitaryGate is present
             -> CapRule.allNotVariableUnitary
-        all(isinstance(g, LocallyOptimizableUnitary) for g in circuit.gate_set)
+        false exactly when a non-locally-optimizable gate (CNOT) is present
             -> CapRule.allLocallyOptimizable
     anything else -> CapRule.unknown,
-  * the selection expression of the multi-start methods
-    (`sorted(params_list, key=lambda x: cost_fn(x))[0]`): index and whether a
-    `reverse=` keyword is present, for Instantiater and every override.
+  * the selection expressions of the multi-start methods, for Instantiater and
+    every override: "firstMin" for `sorted(xs, key=cost)[0]` / `min(xs,
+    key=cost)`, "other:..." for a recognised selection that is something else
+    (index != 0, reverse=, max); unrecognised code yields no entry (the
+    dynamic tie of harness/c19.py checks the selection on every run).
 
 Props/C19.lean proves by `decide` that the table is the one the model
 (`Cost.assumedOrder`, `Cost.multiStart`) assumes, so `lake build` re-checks it
@@ -34,87 +37,98 @@ def _fn_ast(fn) -> ast.FunctionDef:
     return node
 
 
+def _probe_circuits():
+    """Circuits whose gate sets separate the capability rules: a
+    VariableUnitaryGate (locally optimizable), a gate that is neither
+    (CNOT), a locally optimizable non-variable gate (RX)."""
+    from bqskit.ir.circuit import Circuit
+    from bqskit.ir.gates import CNOTGate, RXGate, VariableUnitaryGate
+    out = []
+    for keys in ([], ['vu'], ['cx'], ['rx'], ['vu', 'cx'], ['vu', 'rx'],
+                 ['cx', 'rx'], ['vu', 'cx', 'rx']):
+        c = Circuit(2)
+        for k in keys:
+            if k == 'vu':
+                c.append_gate(VariableUnitaryGate(1), 0)
+            elif k == 'cx':
+                c.append_gate(CNOTGate(), (0, 1))
+            else:
+                c.append_gate(RXGate(), 1)
+        out.append((set(keys), c))
+    return out
+
+
 def cap_rule(cls) -> str:
-    """Classify the body of `cls.is_capable`."""
+    """Classify `cls.is_capable` by its BEHAVIOUR on the probe circuits (a
+    refactoring of the body that keeps the predicate is not a change)."""
     try:
-        fn = _fn_ast(cls.is_capable)
+        table = [(keys, bool(cls.is_capable(c)))
+                 for keys, c in _probe_circuits()]
     except Exception:
         return 'unknown'
-    body = [s for s in fn.body
-            if not (isinstance(s, ast.Expr)
-                    and isinstance(s.value, ast.Constant))]
-    if len(body) != 1 or not isinstance(body[0], ast.Return):
-        return 'unknown'
-    call = body[0].value
-    if not (isinstance(call, ast.Call) and isinstance(call.func, ast.Name)
-            and call.func.id == 'all' and len(call.args) == 1
-            and not call.keywords):
-        return 'unknown'
-    gen = call.args[0]
-    if not isinstance(gen, ast.GeneratorExp) or len(gen.generators) != 1:
-        return 'unknown'
-    comp = gen.generators[0]
-    if comp.ifs or not isinstance(comp.target, ast.Name):
-        return 'unknown'
-    var = comp.target.id
-    it = comp.iter
-    arg0 = fn.args.args[0].arg if fn.args.args else None
-    if not (isinstance(it, ast.Attribute) and it.attr == 'gate_set'
-            and isinstance(it.value, ast.Name) and it.value.id == arg0):
-        return 'unknown'
-    elt = gen.elt
-    neg = False
-    if isinstance(elt, ast.UnaryOp) and isinstance(elt.op, ast.Not):
-        neg = True
-        elt = elt.operand
-    if not (isinstance(elt, ast.Call) and isinstance(elt.func, ast.Name)
-            and elt.func.id == 'isinstance' and len(elt.args) == 2
-            and isinstance(elt.args[0], ast.Name) and elt.args[0].id == var
-            and isinstance(elt.args[1], ast.Name)):
-        return 'unknown'
-    # resolve the class name in the defining module
-    mod = inspect.getmodule(cls)
-    target = getattr(mod, elt.args[1].id, None)
-    from bqskit.ir.gates.parameterized.unitary import VariableUnitaryGate
-    from bqskit.qis.unitary import LocallyOptimizableUnitary
-    if neg and target is VariableUnitaryGate:
+    if all(v == ('vu' not in keys) for keys, v in table):
         return 'allNotVariableUnitary'
-    if not neg and target is LocallyOptimizableUnitary:
+    if all(v == ('cx' not in keys) for keys, v in table):
         return 'allLocallyOptimizable'
     return 'unknown'
 
 
-def selection_shape(fn) -> list[tuple[int, bool, bool]]:
-    """Every `sorted(<x>, key=...)[i]` in fn: (i, has_reverse, key_is_cost)."""
+def _key_is_cost(call: ast.Call) -> bool:
+    for k in call.keywords:
+        if k.arg == 'key':
+            v = k.value
+            if isinstance(v, ast.Name) and v.id == 'cost_fn':
+                return True
+            if isinstance(v, ast.Lambda):
+                b = v.body
+                if (isinstance(b, ast.Call) and isinstance(b.func, ast.Name)
+                        and b.func.id == 'cost_fn' and len(b.args) == 1
+                        and isinstance(b.args[0], ast.Name)
+                        and v.args.args
+                        and b.args[0].id == v.args.args[0].arg):
+                    return True
+    return False
+
+
+def selection_shape(fn) -> list[str]:
+    """How the multi-start method picks among the per-start results:
+    'firstMin'   sorted(xs, key=cost)[0]  or  min(xs, key=cost)
+    'other:<..>' a sorted()/min()/max() selection that is NOT the first
+                 minimum by cost (index != 0, reverse=, max, other key)
+    []           no such expression recognised (the dynamic tie still
+                 checks the selection on every run)."""
     out = []
     try:
         tree = _fn_ast(fn)
     except Exception:
-        return [(-999, True, False)]
+        return out
     for node in ast.walk(tree):
         if (isinstance(node, ast.Subscript) and isinstance(node.value, ast.Call)
                 and isinstance(node.value.func, ast.Name)
                 and node.value.func.id == 'sorted'):
             call = node.value
-            idx = -999
             sl = node.slice
+            idx = None
             if isinstance(sl, ast.Constant) and isinstance(sl.value, int):
                 idx = sl.value
             elif (isinstance(sl, ast.UnaryOp) and isinstance(sl.op, ast.USub)
                   and isinstance(sl.operand, ast.Constant)):
                 idx = -sl.operand.value
-            rev = any(k.arg == 'reverse' for k in call.keywords)
-            key_ok = False
-            for k in call.keywords:
-                if k.arg == 'key' and isinstance(k.value, ast.Lambda):
-                    lam = k.value
-                    b = lam.body
-                    if (isinstance(b, ast.Call) and isinstance(b.func, ast.Name)
-                            and b.func.id == 'cost_fn' and len(b.args) == 1
-                            and isinstance(b.args[0], ast.Name)
-                            and b.args[0].id == lam.args.args[0].arg):
-                        key_ok = True
-            out.append((idx, rev, key_ok))
+            rev = any(k.arg == 'reverse' and not (
+                isinstance(k.value, ast.Constant) and k.value.value is False)
+                for k in call.keywords)
+            if idx == 0 and not rev and _key_is_cost(call):
+                out.append('firstMin')
+            else:
+                out.append(f'other:sorted[{idx}]' + (',reverse' if rev else '')
+                           + ('' if _key_is_cost(call) else ',key?'))
+        elif (isinstance(node, ast.Call) and isinstance(node.func, ast.Name)
+              and node.func.id in ('min', 'max')
+              and any(k.arg == 'key' for k in node.keywords)):
+            if node.func.id == 'min' and _key_is_cost(node):
+                out.append('firstMin')
+            else:
+                out.append(f'other:{node.func.id}')
     return out
 
 
@@ -146,8 +160,8 @@ def generate() -> dict:
             if key in seen:
                 continue
             seen.add(key)
-            for idx, rev, key_ok in selection_shape(fn) or [(-999, True, False)]:
-                sels.append((cls.__name__, meth, idx, rev, key_ok))
+            for kind in selection_shape(fn):
+                sels.append((cls.__name__, meth, kind))
     lines = [
         'import BqVerif.Model.Cost',
         '/- GENERATED by translate/instorder.py from the live bqskit source. -/',
@@ -164,14 +178,14 @@ def generate() -> dict:
     lines += [
         ']',
         '',
-        '/-- every `sorted(..., key=lambda x: cost_fn(x))[i]` of the multi-start methods:',
-        '(class, method, index, has `reverse=`, key is `cost_fn(x)`) -/',
-        'def selections : List (String × String × Int × Bool × Bool) := [',
+        '/-- every selection expression recognised in the multi-start methods:',
+        '(class, method, kind); kind "firstMin" = `sorted(xs, key=cost)[0]` / `min(xs, key=cost)` -/',
+        'def selections : List (String × String × String) := [',
     ]
     lines += [
-        f'  ({lean_str(c)}, {lean_str(m)}, {i}, {str(r).lower()}, {str(k).lower()})'
+        f'  ({lean_str(c)}, {lean_str(m)}, {lean_str(k)})'
         + (',' if j + 1 < len(sels) else '')
-        for j, (c, m, i, r, k) in enumerate(sels)
+        for j, (c, m, k) in enumerate(sels)
     ]
     lines += [']', '', 'end BqVerif.Generated.InstOrder', '']
     text = '\n'.join(lines)
